@@ -174,6 +174,8 @@ RV_<G_<NFT_, TC_, Manual, TRO_ HFSM2_IF_UTILITY_THEORY(, TR_, TU_, TG_), NSL_ HF
 	HFSM2_ASSERT(_core.registry.empty());
 	_apex.deepLoadRequested(_core.registry, stream);
 
+	const auto loadedResumable = _core.registry.compoResumable;
+
 	HFSM2_ASSERT(_core.requests.empty());
 
 #if HFSM2_PLANS_AVAILABLE()
@@ -193,6 +195,8 @@ RV_<G_<NFT_, TC_, Manual, TRO_ HFSM2_IF_UTILITY_THEORY(, TR_, TU_, TG_), NSL_ HF
 	PlanControl control{_core, emptyTransitions};
 
 	_apex.deepEnter(control);
+
+	_core.registry.compoResumable = loadedResumable;
 
 	HFSM2_IF_STRUCTURE_REPORT(udpateActivity());
 }
